@@ -23,7 +23,10 @@ Record obsv := mkObsv {
 }.
 
 Inductive case :=
-| CVal (opt : bkopt) (xs : list Q) (k : nat) (bkspread : Q) (coeff : list Q) (ob : obsv).
+| CVal (opt : bkopt) (xs : list Q) (k : nat) (bkspread : Q) (coeff : list Q) (ob : obsv)
+  (* a later call in a history on the SAME object: knots / coefficients were changed (in place or by assignment) after
+     earlier evaluations; the answer must be the pure one for the current knots and coefficients *)
+| CHist (k : nat) (coeff : list Q) (ob : obsv).
 
 (* ---- specification side: depends only on the implementation's own knots and the textbook recursion *)
 Definition spec_knots (bk : list Q) (k : nat) (xs : list Q) (computed : bool) : bool :=
@@ -120,6 +123,15 @@ Definition run_case (c : case) : Z :=
                   spec_mask bk k (o_xe ob) (o_mask ob) &&
                   spec_basis bk k xs_sorted (o_bs ob) in
       ((if m_ok then 0 else 1) + (if s_ok then 0 else 2))%Z
+  | CHist k coeff ob =>
+      let bk := o_bk ob in
+      let xs_sorted := apply_perm 0 (o_perm ob) (o_xe ob) in
+      let m_ok := model_eval k coeff ob in
+      let s_ok := sortedQ bk && (2 * k <=? length bk)%nat &&
+                  spec_values bk k coeff (o_xe ob) (o_yy ob) &&
+                  spec_mask bk k (o_xe ob) (o_mask ob) &&
+                  spec_basis bk k xs_sorted (o_bs ob) in
+      ((if m_ok then 0 else 1) + (if s_ok then 0 else 2))%Z
   end.
 
 Definition run_cases : list case -> list Z := map run_case.
@@ -132,5 +144,10 @@ Definition diagnose (c : case) : list bool :=
       let xs_sorted := apply_perm 0 (o_perm ob) (o_xe ob) in
       [model_knots opt xs k bkspread bk; model_eval k coeff ob;
        spec_knots bk k xs (is_computed opt); spec_values bk k coeff (o_xe ob) (o_yy ob);
+       spec_mask bk k (o_xe ob) (o_mask ob); spec_basis bk k xs_sorted (o_bs ob)]
+  | CHist k coeff ob =>
+      let bk := o_bk ob in
+      let xs_sorted := apply_perm 0 (o_perm ob) (o_xe ob) in
+      [true; model_eval k coeff ob; sortedQ bk; spec_values bk k coeff (o_xe ob) (o_yy ob);
        spec_mask bk k (o_xe ob) (o_mask ob); spec_basis bk k xs_sorted (o_bs ob)]
   end.
